@@ -16,8 +16,8 @@ func (p *prop) Generate(rng *core.Rand, tier string, emit func(string)) {
 	if p.corpus == nil {
 		p.corpus = loadCorpus()
 	}
-	nSort, nSite, nMut, nGram, nRaw, nLeak := 20000, 1800, 3500, 1800, 1000, 200
-	nRec, nImp := 3500, 2000
+	nSort, nSite, nMut, nGram, nRaw, nLeak := 20000, 1800, 3000, 1600, 1000, 200
+	nRec, nImp := 3000, 1800
 	switch tier {
 	case "thorough":
 		nSort, nSite, nMut, nGram, nRaw, nLeak = 300000, 20000, 70000, 30000, 20000, 2000
@@ -73,6 +73,10 @@ func (p *prop) Generate(rng *core.Rand, tier string, emit func(string)) {
 	// ---- `servers { name }` renames: determinism over many adaptations, no server lost
 	for i := 0; i < nSite/6; i++ {
 		emit(genRenameCase(rgl))
+	}
+	// ---- `servers` option blocks → servers (which block applies, final names) vs model
+	for i := 0; i < nSite/3; i++ {
+		emit(genSoptsCase(rgl))
 	}
 	// ---- token-level mutations of the corpus
 	rm := rng.Fork()
